@@ -186,7 +186,7 @@ def _num(v):
 
 
 def val_close(e, o):
-    if e == o:
+    if e == o or e[0] == 14:
         return True
     if e[0] == 11:                      # some non-null number
         return o[0] in (1, 2)
